@@ -53,6 +53,15 @@ static std::vector<Json>& c14_table(){
     ops.push(o);
     tab.push_back(ops);
   }
+  // plain copy and move assignment onto a view of user storage from a source of another size, the empty vector included
+  for(int d1=2;d1<=6;d1++) for(int d2=0;d2<=6;d2++) if(d1!=d2 && d2!=1) for(int mv=0;mv<2;mv++){
+    Json ops=Json::array();
+    op_make(ops,0,d1,true,0); op_fill(ops,0,d1*10+d2,6);
+    if(d2==0){ Json o=Json::object(); o["op"]="default"; o["t"]=1; ops.push(o); } else { op_make(ops,1,d2,false,1); op_fill(ops,1,d2*10+d1,1); }
+    op_make(ops,2,d1,false,0); op_fill(ops,2,7,0);
+    Json o=Json::object(); o["op"]=mv?"move_assign":"copy_assign"; o["t"]=0; o["s"]=1; ops.push(o);
+    tab.push_back(ops);
+  }
   // constructor / factory window; every entry is surrounded by valid vectors whose integrity is checked
   std::vector<Json> faulty;
   static const int badd[]={1,7,8};
